@@ -148,7 +148,6 @@ fn build(tier: Tier) -> Vec<Scenario> {
         for (name, prog, input) in [
             ("unbounded-map-1", vec![Map], vec![1i64]),
             ("unbounded-map-2", vec![Map, Filter], vec![1, 2]),
-            ("unbounded-empty-shuffle", vec![Shuffle], vec![]),
         ] {
             let cfg = JobCfg { layout: Layout::Local(1), batch: BatchMode::fixed(2), capacity: 0 };
             let mut s = program_scenario(&format!("C04/{name}"), &prog, &input, SrcKind::Iter, &cfg, 0, &ORDERS3[..1], format!("{name}:"));
